@@ -18,32 +18,34 @@ import (
 
 // Scenario is one randomized run against one in-process nsqd.
 type Scenario struct {
-	Seed        int64
-	Mode        string // core | contend | flow | churn | bytes
-	MemQ        int64
-	MaxBytes    int64
-	MsgTimeout  time.Duration
-	MaxMsgTmo   time.Duration
-	MaxReqTmo   time.Duration
-	Topics      []string
-	Channels    map[string][]string // topic -> channel names
-	ConsPerChan int
-	NPub        int // publishers
-	NMsg        int // messages per publisher
-	Phases      int
-	OutBufSize  int
-	OutBufTmo   int
-	Deflate     bool
-	DeflateLvl  int
-	Snappy      bool
-	TLS         bool
-	BodyMax     int
-	SampleRate  int
-	Vanish      bool // a consumer stops reading mid-stream: the daemon's write to it fails (C01)
-	Starve      bool // one channel has a timeout on every scan tick while it also holds deferred messages (C04 "soon after")
-	RdyZero     bool // an idle consumer lowers RDY / CLS / its channel is paused, long before the next publish (C03)
-	Lonely      bool // an extra topic without any channel until the drain (C13: it is reported all the same)
-	Lookupd     int  // 0: none configured; 1: an nsqlookupd that stays up; 2: one that nsqd connected to and that is gone by the time the topics are created
+	Seed         int64
+	Mode         string // core | contend | flow | churn | bytes
+	MemQ         int64
+	MaxBytes     int64
+	MsgTimeout   time.Duration
+	MaxMsgTmo    time.Duration
+	MaxReqTmo    time.Duration
+	Topics       []string
+	Channels     map[string][]string // topic -> channel names
+	ConsPerChan  int
+	NPub         int // publishers
+	NMsg         int // messages per publisher
+	Phases       int
+	OutBufSize   int
+	OutBufTmo    int
+	Deflate      bool
+	DeflateLvl   int
+	Snappy       bool
+	TLS          bool
+	BodyMax      int
+	SampleRate   int
+	Vanish       bool // a consumer stops reading mid-stream: the daemon's write to it fails (C01)
+	Starve       bool // one channel has a timeout on every scan tick while it also holds deferred messages (C04 "soon after")
+	RdyZero      bool // an idle consumer lowers RDY / CLS / its channel is paused, long before the next publish (C03)
+	MixedTmo     bool // two consumers of one channel with different negotiated msg_timeouts (C04)
+	PauseBacklog bool // topic paused in the middle of fanning out a backlog (C03)
+	Lonely       bool // an extra topic without any channel until the drain (C13: it is reported all the same)
+	Lookupd      int  // 0: none configured; 1: an nsqlookupd that stays up; 2: one that nsqd connected to and that is gone by the time the topics are created
 }
 
 func (s Scenario) String() string {
@@ -62,6 +64,12 @@ func (s Scenario) String() string {
 	}
 	if s.Lonely {
 		feat += " lonely-topic"
+	}
+	if s.MixedTmo {
+		feat += " mixed-timeouts"
+	}
+	if s.PauseBacklog {
+		feat += " pause-backlog"
 	}
 	if s.Lookupd != 0 {
 		feat += []string{"", " lookupd", " lookupd-gone"}[s.Lookupd]
@@ -97,6 +105,7 @@ func genScenario(mode string, seed int64) Scenario {
 	}
 	if mode == "flow" {
 		s.RdyZero = true
+		s.PauseBacklog = rand.New(rand.NewSource(seed*2221+7)).Intn(2) == 0
 	}
 	if mode == "core" || mode == "churn" || mode == "flow" {
 		// independent stream: the other choices for a given seed stay what they were
@@ -127,6 +136,10 @@ func genScenario(mode string, seed int64) Scenario {
 		s.MaxReqTmo = time.Duration(150+r.Intn(150)) * time.Millisecond
 		s.NMsg = 10 + r.Intn(12)
 		s.Starve = r.Intn(3) == 0
+		s.MixedTmo = !s.Starve && rand.New(rand.NewSource(seed*613+1)).Intn(3) == 0
+		if s.MixedTmo {
+			s.MaxMsgTmo = 8 * time.Second
+		}
 		if s.Starve {
 			s.MsgTimeout, s.MaxMsgTmo, s.MaxReqTmo = 200*time.Millisecond, 600*time.Millisecond, 300*time.Millisecond
 		}
